@@ -225,10 +225,25 @@ class OpRunner(object):
         raise AssertionError(src)
 
     # sync -------------------------------------------------------------------------------------
+    def _maybe_reset(self):
+        cfg = self.run.link.cfg
+        at = cfg.get('reset_at_op')
+        self.opn = getattr(self, 'opn', -1) + 1
+        if at is not None and self.opn == at:
+            # the peer resets the connection now (RST): every later call on this connection fails
+            link = self.run.link
+            link.dead = 'reset'
+            link.faults_fired.append((link.ncalls, 'reset', 'peer'))
+            link.monitor_overread = False
+            for tr in getattr(self.run, 'aio_transports', []):
+                if not tr.closed:
+                    tr.loop.call_soon(tr._lost, ConnectionResetError(104, 'Connection reset by peer (injected)'))
+
     def do(self, op):
         rec = {'op': op['op'], 'spec': op, 'ok': False, 'value': None, 'exc': None}
         run = self.run
         link = run.link
+        self._maybe_reset()
         rec['t0'] = run.clock.now
         rec['w0'] = link.bytes_written
         rec['calls0'] = link.ncalls
@@ -297,6 +312,15 @@ class OpRunner(object):
                 for nop in nested:
                     rec['nested'].append(self.do(nop))
             return out
+        if k == 'ss_create':
+            # create the generator now, iterate it later (the connection may be closed in between)
+            self.files['ss_gen'] = d.streaming_shell(op['cmd'], decode=op.get('decode', True), **self._kw(op, T[:2]))
+            return None
+        if k == 'ss_consume':
+            gen = self.files.pop('ss_gen', None)
+            if gen is None:
+                return []
+            return [item for item in gen]
         if k == 'list':
             return d.list(op['path'], **self._kw(op, T[:2]))
         if k == 'stat':
@@ -374,6 +398,7 @@ class OpRunner(object):
         rec = {'op': op['op'], 'spec': op, 'ok': False, 'value': None, 'exc': None}
         run = self.run
         link = run.link
+        self._maybe_reset()
         rec['t0'] = run.clock.now
         rec['w0'] = link.bytes_written
         rec['calls0'] = link.ncalls
@@ -439,6 +464,17 @@ class OpRunner(object):
             if nested and i < after:
                 for nop in nested:
                     rec['nested'].append(await self.ado(nop))
+            return out
+        if k == 'ss_create':
+            self.files['ss_gen'] = d.streaming_shell(op['cmd'], decode=op.get('decode', True), **self._kw(op, T[:2]))
+            return None
+        if k == 'ss_consume':
+            gen = self.files.pop('ss_gen', None)
+            if gen is None:
+                return []
+            out = []
+            async for item in gen:
+                out.append(item)
             return out
         if k == 'list':
             return await d.list(op['path'], **self._kw(op, T[:2]))
@@ -685,7 +721,7 @@ def _execute_sync(scn, tape, L):
             obj = usbworld.make_device_obj(scn, run, L)
         else:
             obj = adb_device.AdbDevice(transport, default_transport_timeout_s=o.get('default_tt'), banner=o.get('banner', 'simhost'))
-        adb_device.Lock = saved_lock
+        # (Lock stays substituted until the run ends: a lock the library creates lazily must be cooperative too)
         if True:
             # name the locks after their attribute for readable deadlock reports
             for holder in (obj, obj._io_manager):
